@@ -208,6 +208,43 @@ CHECKS = {
         "spline-accuracy clause judged with Hall-Meyer bounds times calibrated safety "
         "factors; ~4 % of entries judged for shape/finiteness only",
         "DESIGN.md §4 C18"),
+    "C01": (
+        "trace monitor on the real EOM.wallPressure / EOM.solveWall during "
+        "WallGoManager.solveWall: bracket reconstructed from the run's own pressure trace, "
+        "independent re-evaluation on a fresh solver at v* -+ 2 errTol, window, bit-equality of "
+        "the returned quantities with the last traced evaluation at v*, runaway/error "
+        "labelling, and history independence by exact equality of a repeated solve after "
+        "other operations on the same manager",
+        "Runtime monitoring of 30 (quick) / 300 (thorough) model x settings x history cases on "
+        "poly1/poly2/bag1 (grid sizes, tolerances, energy conservation on/off, with and "
+        "without out-of-equilibrium particles on synthetic collision files, histories of 1-3 "
+        "operations incl. detonation search and re-setup of another benchmark point). Held on "
+        "the executions observed.",
+        "P_trace admissibility; the sign probe is skipped for conserveEnergyMomentum=False "
+        "(pressure not a function of v_w alone there)",
+        "DESIGN.md §4 C01"),
+    "C07": (
+        "metamorphic monitor over recorded runs of the real pipeline at unit factor 1 and s: "
+        "stage-wise comparison (phases at value level, equation of state, hydrodynamics, LTE, "
+        "wall solve) with call-site monitors (minimiser iterations, table spacing, pressure "
+        "start-dependence probe) attributing a divergence to its mechanism",
+        "Runtime monitoring of 12 models x 2 factors (quick) / 40 models x 5 factors x 2 "
+        "settings (thorough), factors 1e-2..1e2. Held on the executions observed except for "
+        "the listed known findings.",
+        "P_trace and P_margin required of the reference run; traced table ranges/flags are "
+        "recorded, not judged (internal bookkeeping, not a result)",
+        "DESIGN.md §4 C07"),
+    "C08": (
+        "metamorphic monitor over recorded runs of the real pipeline under x = A phi + b "
+        "(signed permutation, translation up to 2 vev) applied consistently to potential, "
+        "particles, guesses and scales; offsets compared after re-origining to the partner's "
+        "first field; pressure start-dependence probe attributes solve-stage divergences",
+        "Runtime monitoring of 11 models x 2 transformations (quick) / 34 x 7 (thorough) on "
+        "poly2 (and poly1 for translation/reflection). Held on the executions observed except "
+        "for the listed known finding.",
+        "P_trace required of the reference run; vJ compared only when the Chapman-Jouguet "
+        "point lies inside the tabulated ranges",
+        "DESIGN.md §4 C08"),
 }
 
 ALL = [f"C{i:02d}" for i in range(1, 21)]
